@@ -34,7 +34,7 @@ def plan(tier):
 def required(tier):
     return ["q:single_aligned", "q:single_unaligned", "q:mixed", "q:all_unaligned", "q:revisit_single",
             "q:revisit_multi", "q:with_format", "q:whole_file", "q:repeats", "expected_reported_nothing_found",
-            "selection_gt_1000_records"]
+            "selection_gt_1000_records", "reindexed_same_paths"]
 
 
 def setup(ctx):
@@ -164,6 +164,27 @@ def run_case(ctx, rng, index, casedir):
         viol.append({"kind": "whole_file_failed", "msg": f"view GAF: {o.brief()}"})
     elif read_text(out).split("\n")[:-1] != [l.rstrip() for l in w.lines]:
         viol.append({"kind": "whole_file_differs", "msg": "view GAF without selection/format does not reproduce the file"})
+    if not hub_case and len(w.lines) >= 2 and aligned and rng.random() < 0.2:
+        # the GAF is replaced under the same name (other record order) and indexed again to the same
+        # index path, in this very process: later queries must see the new file and the new index
+        from vf.gen import gaf as ggaf
+        perm = list(range(len(w.lines)))
+        rng.shuffle(perm)
+        w.lines = [w.lines[i] for i in perm]
+        w.nodesets = [w.nodesets[i] for i in perm]
+        ggaf.write_gaf(w.gaf, w.lines, mode=w.mode, rng=rng, layout=w.layout, final_newline=w.final_newline)
+        o = VC.run_index(w, None if w.gvi == w.gaf + ".gvi" else w.gvi)
+        sit["reindexed_same_paths"] += 1
+        if o.ok:
+            for k in range(3):
+                nodes = [rng.choice(aligned) for _ in range(rng.randint(1, 3))]
+                o2, out = run_query(w, nodes, None, casedir, 900 + k, rng)
+                sel = VC.expected_selection(w, nodes)
+                got = [l.split("\t")[0] for l in read_text(out).split("\n") if l] if o2.ok else f"<{o2.brief()}>"
+                exp = [VC.expected_str_line(w.lines[i]).split("\t")[0] for i in sel]
+                if got != exp:
+                    viol.append({"kind": "selection_after_reindex", "msg": f"after replacing and re-indexing the GAF under the same paths: -n {' '.join(nodes)} gave {got if isinstance(got, str) else got[:8]}, expected {exp[:8]}",
+                                 "witness": {"nodes": nodes, "got": got if isinstance(got, str) else got[:30], "expected": exp[:30]}})
     return {"sigs": sigs, "evals": len(queries) + 1, "situations": dict(sit), "violations": viol,
             "outcomes": dict(outcomes),
             "sample": {"stable": w.stable, "mode": w.mode, "queries": [(k, n) for k, n in queries[:4]]}}
